@@ -6,6 +6,7 @@ import (
 	"os"
 	"sort"
 	"strings"
+	"time"
 
 	"verifharness/kit"
 )
@@ -18,6 +19,7 @@ type Scenario struct {
 	Moves   []string `json:"moves"`
 	Actions []string `json:"actions,omitempty"` // observed: the model actions, as Coq terms
 	Skipped int      `json:"skipped_moves,omitempty"`
+	Failure string   `json:"harness_failure,omitempty"` // the scenario could not be run to its end
 }
 
 func newDriver(sc *Scenario) *driver {
@@ -26,10 +28,13 @@ func newDriver(sc *Scenario) *driver {
 	if err != nil {
 		panic(err)
 	}
-	d := &driver{w: &world{stg: stg}, cap: sc.Cap, max: sc.Max, maxErrs: sc.MaxErrs, clock: clock, tags: map[string]bool{}}
+	return &driver{w: &world{stg: stg}, cap: sc.Cap, max: sc.Max, maxErrs: sc.MaxErrs, clock: clock, tags: map[string]bool{}}
+}
+
+// boot starts the first incarnation (a panic in here is caught by the caller, which holds the driver)
+func (d *driver) boot() {
 	d.newIncarnation()
 	d.settle()
-	return d
 }
 
 func (d *driver) finish() {
@@ -37,15 +42,17 @@ func (d *driver) finish() {
 	current.Store(nil)
 }
 
+// execute never fails: a scenario the harness cannot run to its end (the real code does something the stepping
+// driver cannot follow, a call that does not return, a panic) is the outcome of this case - `CBroken`, which
+// `agrees` and `satisfies` reject, with the text and the actions observed so far in its description.
 func execute(sc *Scenario) (c kit.Case, err error) {
 	d := newDriver(sc)
 	defer func() {
 		if r := recover(); r != nil {
-			err = fmt.Errorf("scenario failed at move %d: %v", len(d.moves), r)
-			passthrough.Store(true)
-			d.in.dead.Store(true)
+			c, err = d.broken(sc, fmt.Sprintf("scenario failed at move %d: %v", len(d.moves), r)), nil
 		}
 	}()
+	d.boot()
 	for _, m := range sc.Moves {
 		ok := false
 		for _, e := range d.enabled() {
@@ -60,11 +67,43 @@ func execute(sc *Scenario) (c kit.Case, err error) {
 			continue
 		}
 		if err := d.do(m); err != nil {
-			return c, err
+			return d.broken(sc, fmt.Sprintf("scenario failed at move %d: %v", len(d.moves), err)), nil
 		}
 	}
 	d.finish()
 	return d.toCase(sc), nil
+}
+
+// abandon tears down an incarnation the driver lost track of: everything passes through, the goroutines of the
+// sequencer are let go; if its cleanup does not return within the deadline they are left behind (they belong to
+// a dead incarnation: their hooks return at once)
+func (d *driver) abandon() {
+	done := make(chan struct{})
+	go func() {
+		defer func() { recover(); close(done) }()
+		d.crash()
+	}()
+	select {
+	case <-done:
+	case <-time.After(5 * time.Second):
+	}
+	current.Store(nil)
+	passthrough.Store(false)
+}
+
+func (d *driver) broken(sc *Scenario, why string) kit.Case {
+	d.abandon()
+	sc.Actions, sc.Failure = d.acts, why
+	if len(sc.Failure) > 600 {
+		sc.Failure = sc.Failure[:600]
+	}
+	return kit.Case{
+		Coq:        "CBroken",
+		Key:        fmt.Sprintf("broken|%d|%d|%s", sc.Cap, sc.Max, strings.Join(d.moves, ",")),
+		Nontrivial: true,
+		Desc:       sc,
+		Tags:       []string{"harness:case-did-not-complete", fmt.Sprintf("cap:%d", sc.Cap), fmt.Sprintf("max:%d", sc.Max)},
+	}
 }
 
 func (d *driver) toCase(sc *Scenario) kit.Case {
@@ -101,11 +140,10 @@ func generate(r *kit.Rng, steps int) (*Scenario, kit.Case, error) {
 	func() {
 		defer func() {
 			if rec := recover(); rec != nil {
-				err = fmt.Errorf("scenario failed at move %d (%v): %v", len(d.moves), d.moves, rec)
-				passthrough.Store(true)
-				d.in.dead.Store(true)
+				err = fmt.Errorf("scenario failed at move %d: %v", len(d.moves), rec)
 			}
 		}()
+		d.boot()
 		for i := 0; i < steps; i++ {
 			en := d.enabled()
 			weights := make([]int, len(en))
@@ -150,10 +188,10 @@ func generate(r *kit.Rng, steps int) (*Scenario, kit.Case, error) {
 		}
 		d.finish()
 	}()
-	if err != nil {
-		return sc, kit.Case{}, err
-	}
 	sc.Moves = d.moves
+	if err != nil {
+		return sc, d.broken(sc, err.Error()), nil
+	}
 	return sc, d.toCase(sc), nil
 }
 
@@ -182,11 +220,7 @@ func Generate(seed uint64, n int, tier, corpusDir string, shard int, out *kit.Ou
 		}
 		out.Emit(wrapHistory(c))
 		if i%3 == 2 {
-			sc, err := executeScan(genScan(r.Fork()))
-			if err != nil {
-				return err
-			}
-			out.Emit(sc)
+			out.Emit(executeScan(genScan(r.Fork())))
 		}
 	}
 	return nil
@@ -194,6 +228,9 @@ func Generate(seed uint64, n int, tier, corpusDir string, shard int, out *kit.Ou
 
 // the history cases are one constructor of the check's case type
 func wrapHistory(c kit.Case) kit.Case {
+	if c.Coq == "CBroken" {
+		return c
+	}
 	c.Coq = "CHistory (" + c.Coq + ")"
 	return c
 }
@@ -228,7 +265,7 @@ func Replay(path string, out *kit.Out) error {
 			return err
 		}
 	}
-	sc.Actions, sc.Skipped = nil, 0
+	sc.Actions, sc.Skipped, sc.Failure = nil, 0, ""
 	c, err := execute(sc)
 	if err != nil {
 		return err
